@@ -109,8 +109,14 @@ def run_runner_case(case: dict[str, Any]) -> dict[str, Any]:
                     # handed over with a resource of two types: still one callback
                     from asphalt.core import add_resource
 
+                    cb = make_cb(r)
+                    if r["id"] % 2 == 0:
+                        # "any callable": an object with __call__ whose truth value is False (an empty hook list, say)
+                        from .kernel import CallableObject
+
+                        cb = CallableObject(cb, falsy=True)
                     add_resource(TYPES[0](r["id"]), f"res{r['id']}", types=[TYPES[0], TYPES[1]],
-                                 teardown_callback=make_cb(r))
+                                 teardown_callback=cb)
                 else:
                     add_teardown_callback(make_cb(r), r["pass"])
                 log.append(["reg", r["id"], r["pass"]])
